@@ -4,7 +4,7 @@ from . import buildm as B
 from . import c18 as S18
 
 CLAIM = dict(
-    text="Coq theorems about the thread semantics of the Build model (Model/BuildM.v: a pool of thread-local positions, run_schedule over any list of thread ids, one dictionary operation / source-line boundary per step). C19_built: once the function has been built by a completed call, ANY schedule over ANY number of threads calling with ANY keys (racing cache misses for equal and different keys, racing call_next chains, warm keys) returns the outcomes over the complete table and leaves a state in which every later probe does too (every step of a call keeps the table consistent -- resolve writes the first-rank entry last since the repair of KF-20, /repo 7cfed94 -- and each thread's invariant is stable under the other threads' steps; induction over the schedule). C19_warm: on the decidable domain warm (built, first-rank entries of the keys present), for arbitrary parameters, any schedule leaves the shared state untouched and every thread exactly where it would be alone. The full statement is REFUTED for racing FIRST calls with explicit schedules (KF-21: the second caller enters through the swapped entry point over an empty table -> 'no method'; or is already in the trampoline, builds a second table into which the first registers its remaining methods -> permanent spurious ambiguity). Tie to /repo on every run: a cooperative scheduler (sys.settrace in each thread + per-thread semaphores, every executed library line a scheduling point) replays the witness schedules and random schedules with <= 3 pre-emptions placed at source-anchored markers on the real code with 2 (sampled: 3) threads -- thread results and later probes must equal the extracted model's for the same schedule; random line-level schedules must land in the model's reachable set (exhaustive enumeration with the same pre-emption bound); randomised OS-level runs (switch interval 1 microsecond). The oracle (each call returns what it returns alone, probes afterwards equal a fresh function) is evaluated on the implementation alone; a failure on a built function is a violation, a failure while racing the first build must lie in KF-21's class.",
+    text="Coq theorems about the thread semantics of the Build model (Model/BuildM.v: a pool of thread-local positions, run_schedule over any list of thread ids, one dictionary operation / source-line boundary per step). C19_built: once the function has been built by a completed call, ANY schedule over ANY number of threads calling with ANY keys (racing cache misses for equal and different keys, racing call_next chains, warm keys) returns the outcomes over the complete table and leaves a state in which every later probe does too (every step of a call keeps the table consistent -- resolve writes the first-rank entry last since the repair of KF-20, /repo 7cfed94 -- and each thread's invariant is stable under the other threads' steps; induction over the schedule). C19_warm: on the decidable domain warm (built, first-rank entries of the keys present), for arbitrary parameters, any schedule leaves the shared state untouched and every thread exactly where it would be alone. The full statement is REFUTED for racing FIRST calls with explicit schedules (KF-21: the second caller enters through the swapped entry point over an empty table -> 'no method'; or is already in the trampoline, builds a second table into which the first registers its remaining methods -> permanent spurious ambiguity). Tie to /repo on every run: a cooperative scheduler (sys.settrace in each thread + per-thread semaphores, every executed library line a scheduling point) replays the witness schedules and random schedules with <= 3 pre-emptions placed at source-anchored markers on the real code with 2 (sampled: 3) threads -- thread results and later probes must equal the extracted model's for the same schedule; random line-level schedules must land in the model's reachable set (exhaustive enumeration with the same pre-emption bound); randomised OS-level runs (switch interval 1 microsecond). The oracle (each call returns what it returns alone, probes afterwards equal a fresh function) is evaluated on the implementation alone; a failure on a built function is a violation, a failure while racing the first build must lie in KF-21's class. One-pre-emption explorer (thread A held at every library line / call of its call while B makes a whole call) over built functions the Build model does not cover: value-dependent handlers, an Ovld used as a descriptor, optional keyword-only parameters (what the entry point collects per call).",
     note="Partial: the model cannot exhibit interpreter-level atomicity inside one source line: pre-emption inside a line is assumed equivalent to pre-emption at one of its boundaries, each dictionary operation atomic (GIL), and the model's steps are coarser than lines in four places: the computation of the candidate ranks (mro, with its iteration over the shared set of registered types and its per-position caches) is one step, argument analysis (the shared ArgumentAnalyzer) is one step, the five-line swap of the entry point's code/defaults/globals is one step, MultiTypeMap.register is one step. Line-level and OS-level schedules that pre-empt INSIDE such a step while the first build is racing produce further failures of the same defect (observed: 'Set changed size during iteration', an entry point generated from a half-filled analyzer, a permanently stale per-position cache); they are attributed to KF-21 by the scenario class alone and counted separately in the evidence (first_build_race_failures_finer_than_model_steps); everywhere else (marker-anchored schedules, built functions, warm keys) the model must predict the outcome exactly. Dependent ranks, optional parameters, racing register/unregister are outside the harness. Trusted: Coq kernel, extraction, driver, the model (validated by the schedule replays), CPython's tracing and threading. No axioms.",
     technique="Coq proof (invariant stable under other threads' steps, induction over the schedule; refutations by vm_compute on explicit schedules) + deterministic schedule replay on the real code (trace-function cooperative scheduler) + OS-level stress", design="6 C19")
 
@@ -234,7 +234,26 @@ def _preempt_scenarios():
         o = C()
         o.f(2.5)
         return (lambda: o.f(2)), (lambda: o.f("s")), [lambda: o.f(2), lambda: o.f("s"), lambda: o.f(2.5)], ["int", "obj", "int", "obj", "obj"]
-    return {"dependent_handlers": dep, "descriptor_ovld": descriptor}
+    def optkw():
+        # optional keyword-only parameters: the entry point collects the keywords it was given per call
+        f = _ov.Ovld(name="f")
+
+        def i(x: int, y: object = None, *, unit: str = "u", scale: int = 1):
+            return ("int", x, y, unit, scale)
+
+        def st(x: str, y: object = None, *, unit: str = "u", scale: int = 1):
+            return ("str", x, y, unit, scale)
+
+        def o(x: object, y: object = None, *, unit: str = "u", scale: int = 1):
+            return ("obj", x, y, unit, scale)
+        for m in (i, st, o):
+            f.register(m)
+        f(2.5)
+        return ((lambda: f(7, unit="kg")), (lambda: f("s", 1, scale=3)),
+                [lambda: f(7, unit="kg"), lambda: f("s", 1, scale=3), lambda: f(1), lambda: f(2.5, unit="m", scale=2)],
+                [("int", 7, None, "kg", 1), ("str", "s", 1, "u", 3), ("int", 7, None, "kg", 1), ("str", "s", 1, "u", 3),
+                 ("int", 1, None, "u", 1), ("obj", 2.5, None, "m", 2)])
+    return {"dependent_handlers": dep, "descriptor_ovld": descriptor, "optional_keywords": optkw}
 
 
 def _outcome(thunk):
